@@ -111,3 +111,28 @@ HX void hx_logging(uint64_t kinds /* 4 bits per filter site: log1, log2, d11, d1
          vs_assert(d[l][j]->count == want, "destination receives the message exactly once iff its log is selected and log and destination filters pass");
       }
 }
+
+// routing by id mask: n logs with one counting destination each, an arbitrary subset of the ids selected
+// (also non-contiguous subsets, bits of logs that do not exist are ignored); a max-level filter on one log
+HX void hx_routing(uint64_t nlogs, uint64_t filtered) {
+   static const char* const NAMES[] = {"l0", "l1", "l2", "l3", "l4", "l5"};
+   auto& lg = Logging::instance();
+   id_t ids[6]; RecDest* d[6];
+   for (unsigned i = 0; i < nlogs; ++i) {
+      ids[i] = lg.findCreateLog(NAMES[i]);
+      for (unsigned j = 0; j < i; ++j) vs_assert((ids[i] & ids[j]) == 0, "log ids are distinct bits");
+      d[i] = new RecDest; lg.getLog(ids[i])->addDestination("d", d[i]);
+   }
+   int maxlevel = sym_level("level");
+   if (filtered < nlogs) lg.getLog(ids[filtered])->maxLevel((LogLevel) maxlevel);
+   detail::LogMsg msg("file.cpp", "func", 42);
+   int level = sym_level("msglevel"); msg.setLevel((LogLevel) level); msg.setClass(LogClass::data);
+   unsigned sel = vs_u8("logs"); vs_assume(sel < (2u << nlogs));          // one bit more than there are logs
+   id_t mask = 0;
+   for (unsigned i = 0; i <= nlogs; ++i) if ((sel >> i) & 1) mask |= (i < nlogs) ? ids[i] : (ids[nlogs - 1] << 1);
+   lg.log(mask, msg);
+   for (unsigned i = 0; i < nlogs; ++i) {
+      int want = ((sel >> i) & 1) && !(i == filtered && level > maxlevel);
+      vs_assert(d[i]->count == want, "every selected log hands the message to its destination exactly once, no other log does");
+   }
+}
